@@ -216,7 +216,7 @@ def analyze(ctx, want):
     ob("C14.c", "no-unsafe-fn", not ufns, "unsafe fns: %s" % [f.name for f in ufns], "")
     ub = [u for u in F.unsafe_blocks if u["user"] and not u["from_expansion"]]
     allowed_unsafe = {
-        r"create_match_char_class::\{closure#1\}$": (r"(get_unchecked|MatchFunction::call|CharClassID::as_usize|Deref>::deref)", "index by a registered class id: in bounds by C02.f + C08.e"),
+        r"create_match_char_class(::\{closure#\d+\})?$": (r"(get_unchecked|MatchFunction::call|CharClassID::as_usize|Deref>::deref)", "index by a registered class id: in bounds by C02.f + C08.e"),
         r"ScannerCache::get$": (r"(Arc::<.*>::as_ptr|clone::Clone>::clone)", "read-only deref of a pointer obtained from a &Arc borrowed from the cache in the same function"),
     }
     if "C14.c" in want:
@@ -225,6 +225,8 @@ def analyze(ctx, want):
         fn = F.fns.get(u["fn"])
         name = fn.name if fn else u["fn"]
         rows = [(rx, v) for rx, v in allowed_unsafe.items() if re.search(rx, name)]
+        # keyed by the function the block is written in (closure numbering is not part of the identity)
+        name = re.sub(r"(::\{closure#\d+\})+$", "", name)
         if not rows:
             ob("C14.c", "unsafe-block:" + M.short_name(name), False, "unsafe block in %s is not in the audited list" % name, "%s:%d" % (u["file"], u["ln"]))
             continue
@@ -262,27 +264,44 @@ def analyze(ctx, want):
     ob("C02.f", "class-table-only-grows", not badm, "Vec operations on the class table: %s" % [M.short_name(m) for m in muts], ac.loc())
     ob("C14.c", "class-table-only-grows", not badm, "Vec operations on the class table: %s" % [M.short_name(m) for m in muts], ac.loc())
     ex, paths = run_fn(ac, F, BaseModel(), inline=r"ids::CharClassID::new$|CharacterClass::new$")
-    for p in ret_paths(paths):
-        pos = [(c, o) for c, o in p.conds if c[0] in ("discr", "isvar") and "position" in S.vstr(c)]
-        r = p.end[1]
-        pushes = p.calls(r"Vec::<.*CharacterClass>::push$")
-        def uncast(t):
-            while t[0] == "cast":
-                t = t[2]
-            return t
+    from .common import search_table, is_eq_of
+
+    def uncast(t):
+        while t[0] == "cast":
+            t = t[2]
+        return t
+    st = search_table(ex, paths)
+    ob("C02.f", "known-classes-searched-in-the-whole-table", bool(st["source"]) and all("self.character_classes" in x for x in st["source"]) and not [1 for bb, t in ac.calls(r"Iterator>::(rev|skip|take|filter|step_by|skip_while|take_while|chain)\b")],
+       "search over %s" % sorted(set(st["source"])), ac.loc())
+    # a known class: the id is exactly the position at which an equal class was found (no arithmetic on it)
+    for r, ic, p in st["hit"]:
+        good = [c for c, o in ic if o is True and is_eq_of(c, r"item@bb\d+(\.1)?\)?\.ast$", r"ComparableAst\(ast\)|^character_class$")]
         r0 = uncast(r)
-        if pushes:
-            # the id is exactly the length of the table before the push (= the index the class is stored at), and the
-            # stored class carries the same id
-            is_len = r0[0] == "app" and re.search(r"Vec::<.*CharacterClass>::len$", r0[1]) is not None and "self.character_classes" in S.fstr(r0[2][0])
-            pv = pushes[0][3][1]
-            same_id = pv[0] == "adt" and len(pv[3]) >= 1 and uncast(pv[3][0]) == r0
-            ok = is_len and same_id and len(pushes) == 1
-            ob("C02.f", "new-class-id-is-its-index", ok, "new class gets id %s, stored class has id %s, pushed %d time(s)" % (S.vstr(r), S.vstr(pv[3][0]) if pv[0] == "adt" and pv[3] else "?", len(pushes)), ac.loc())
-        else:
-            # the id is exactly the position found (no arithmetic on it)
-            ok = r0[0] == "field" and r0[1][0] == "downcast" and r0[1][2] == "Some" and r0[1][1][0] == "app" and re.search(r"Iterator>::position::", r0[1][1][1]) is not None and "self.character_classes" in S.fstr(r0[1][1][2][0])
-            ob("C02.f", "known-class-id-is-its-position", ok, "known class gets id %s" % S.vstr(r)[:120], ac.loc())
+        ok = False
+        if good:
+            n_ = re.search(r"item@bb(\d+)", S.fstr(good[0])).group(1)
+            enumerated = ".1" in re.search(r"item@bb\d+(\.1)?", S.fstr(good[0])).group(0)
+            ok = r0 == ("sym", "index@bb" + n_) or (enumerated and S.fstr(r0) in ("item@bb%s.0" % n_, "(item@bb%s).0" % n_))
+        ob("C02.f", "known-class-id-is-its-position", ok, "known class gets id %s under %s" % (S.vstr(r)[:60], [(S.fstr(c)[:60], o) for c, o in ic]), ac.loc())
+    for ic, p in st["miss"]:
+        ok = any(o is False and is_eq_of(c, r"item@bb\d+(\.1)?\)?\.ast$", r"ComparableAst\(ast\)|^character_class$") for c, o in ic)
+        ob("C02.f", "search-continues-only-past-different-classes", ok, "next element under %s" % [(S.fstr(c)[:60], o) for c, o in ic], ac.loc())
+    if "C02.f" in want:
+        ctx.floor("C02.f", "paths of add_character_class that find a known class", len(st["hit"]), 1)
+    # a new class: the id is exactly the length of the table before the push (= the index the class is stored at), and
+    # the stored class carries the same id
+    n_new = 0
+    for r, p in st["exhausted"]:
+        pushes = p.calls(r"Vec::<.*CharacterClass>::push$")
+        r0 = uncast(r)
+        n_new += 1
+        is_len = r0[0] == "app" and re.search(r"Vec::<.*CharacterClass>::len$", r0[1]) is not None and "self.character_classes" in S.fstr(r0[2][0])
+        pv = pushes[0][3][1] if pushes else None
+        same_id = pv is not None and pv[0] == "adt" and len(pv[3]) >= 1 and uncast(pv[3][0]) == r0
+        ok = is_len and same_id and len(pushes) == 1
+        ob("C02.f", "new-class-id-is-its-index", ok, "new class gets id %s, stored class has id %s, pushed %d time(s)" % (S.vstr(r), S.vstr(pv[3][0]) if pv is not None and pv[0] == "adt" and pv[3] else "?", len(pushes)), ac.loc())
+    if "C02.f" in want:
+        ctx.floor("C02.f", "paths of add_character_class that register a new class", n_new, 1)
     # dedup equality: equal ids must imply equal predicates (ComparableAst::eq compares exactly what the predicate is built from)
     ce = F.fn(r"ComparableAst as std::cmp::PartialEq>::eq$")
     ctx.analysed_fn(ce)
@@ -625,7 +644,13 @@ def analyze(ctx, want):
         ex, paths = run_fn(fn, F, BaseModel())
         for p in ret_paths(paths):
             c = p.calls(r"ScannerCache::get$")
-            ok = len(c) == 1 and len(c[0][3]) == 2 and S.mentions(ex.deref_val(p, c[0][3][1]), lambda x: x == ("field", ("sym", "self"), arg.split(".")[1]))
+            # exactly the builder's own, unmodified mode list (a list that was sorted, filtered or otherwise rewritten before
+            # the lookup is a different configuration than the one build_uncached compiles)
+            own = ("field", ("sym", "self"), arg.split(".")[1])
+            av = ex.deref_val(p, c[0][3][1]) if len(c) == 1 and len(c[0][3]) == 2 else None
+            while av is not None and av[0] == "app" and re.search(r"Deref>::deref$|<impl \[.*\]>::as_slice$|Vec::<.*>::as_slice$|AsRef<.*>>::as_ref$|Borrow<.*>>::borrow$", str(av[1])) and len(av[2]) == 1:
+                av = ex.deref_val(p, av[2][0]) if av[2][0][0] == "ref" else av[2][0]
+            ok = av is not None and (av == own or (av[0] == "array" and tuple(av[1]) == (own,)) or (av[0] == "vec" and tuple(av[1]) == (own,)))
             recv_ok = len(c) == 1 and c[0][4] is not None and S.mentions(c[0][4], lambda x: x == ("sym", "static:SCANNER_CACHE"))
             ob("C13.f", "build-goes-through-the-cache-with-own-modes:" + M.short_name(fn.name), ok and recv_ok,
                "ScannerCache::get(%s)" % (", ".join(S.vstr(a)[:70] for a in c[0][3]) if c else "none"), fn.loc())
